@@ -97,6 +97,49 @@ theorem tumble_windows_disjoint (t1 t2 size off : Nat) (w1 w2 : Window)
     · exact ⟨by omega, by omega, g1.2.2.1, g1.2.2.2⟩
     · exact ⟨by omega, by omega, g2.2.2.1, g2.2.2.2⟩
 
+/-- C13 ("contains the element's timestamp", read the other way): every timestamp inside a window that `tumble`
+    produced is assigned that very window — a window is exactly the set of timestamps mapped to it -/
+theorem tumble_member (ts ts' size off : Nat) (w : Window) (h : tumble ts size off = some w)
+    (hlo : w.start ≤ ts') (hhi : ts' < w.stop) : tumble ts' size off = some w := by
+  have g := tumble_sound _ _ _ _ h
+  exact tumble_complete ts' size off w ⟨hlo, hhi, g.2.2.1, g.2.2.2⟩ (tumble_fits _ _ _ _ h).2
+
+/-- two timestamps share a window iff the second lies in the first one's window -/
+theorem tumble_same_window_iff (t1 t2 size off : Nat) (w1 w2 : Window)
+    (h1 : tumble t1 size off = some w1) (h2 : tumble t2 size off = some w2) :
+    w1 = w2 ↔ (w1.start ≤ t2 ∧ t2 < w1.stop) := by
+  constructor
+  · rintro rfl
+    have g := tumble_sound _ _ _ _ h2
+    exact ⟨g.1, g.2.1⟩
+  · intro ⟨hlo, hhi⟩
+    have := tumble_member t1 t2 size off w1 h1 hlo hhi
+    rw [h2] at this
+    exact (Option.some.inj this).symm
+
+/-- windows are ordered like event time: a later timestamp never gets an earlier window -/
+theorem tumble_monotone (t1 t2 size off : Nat) (w1 w2 : Window) (hle : t1 ≤ t2)
+    (h1 : tumble t1 size off = some w1) (h2 : tumble t2 size off = some w2) :
+    w1.start ≤ w2.start ∧ w1.stop ≤ w2.stop := by
+  have g1 := tumble_sound _ _ _ _ h1
+  have g2 := tumble_sound _ _ _ _ h2
+  rcases tumble_windows_disjoint t1 t2 size off w1 w2 h1 h2 with rfl | hd | hd
+  · exact ⟨Nat.le_refl _, Nat.le_refl _⟩
+  · omega
+  · omega
+
+/-- no gaps: the window of the first timestamp after a window is the adjacent one (it starts where the other ends);
+    with `tumble_windows_disjoint` the produced windows tile event time -/
+theorem tumble_adjacent (ts size off : Nat) (w w' : Window)
+    (h : tumble ts size off = some w) (h' : tumble w.stop size off = some w') :
+    w'.start = w.stop ∧ w'.stop = w.stop + size := by
+  have g := tumble_sound _ _ _ _ h
+  have g' := tumble_sound _ _ _ _ h'
+  rcases tumble_windows_disjoint ts w.stop size off w w' h h' with rfl | hd | hd
+  · omega
+  · omega
+  · omega
+
 /-- C13 (totality on the representable domain), arithmetic form of DESIGN §7: for `size ≥ 1`,
     `off % size ≤ ts` (otherwise the window would start below 0) and an end below `2^64`,
     the call does not panic. -/
@@ -125,6 +168,11 @@ theorem tumble_none_iff (ts size off : Nat) :
     and the window is the expected `[5, 15)` (witness, not the theorem) -/
 example : 1 ≤ 10 ∧ 25 % 10 ≤ 7 ∧ 7 - (7 - 25 % 10) % 10 + 10 < U64 ∧
     tumble 7 10 25 = some ⟨5, 15⟩ := by decide
+
+/-- hypotheses of `tumble_adjacent` / `tumble_monotone` / `tumble_member` are satisfiable: `[5,15)` then `[15,25)`,
+    and 14 (inside the first) is mapped to the first (witness, not the theorem) -/
+example : tumble 7 10 25 = some ⟨5, 15⟩ ∧ tumble 15 10 25 = some ⟨15, 25⟩ ∧ tumble 14 10 25 = some ⟨5, 15⟩ := by
+  decide
 
 /-- witnesses at the top of the range: the last representable window, and one step beyond -/
 example : tumble (U64 - 2) 1 0 = some ⟨U64 - 2, U64 - 1⟩ ∧ tumble (U64 - 1) 1 0 = none ∧
